@@ -1,14 +1,14 @@
 ------------------------------- MODULE GlobGen -------------------------------
 (* Trees x patterns for C16: every tree over five top-level names (plain,   *)
 (* two characters, dot file, a pattern character, a trailing backslash) with *)
-(* six shapes each (three for the last), every pattern of one or two         *)
+(* seven shapes each (three for the last), every pattern of one or two       *)
 (* components from the component pool, with and without trailing slash.      *)
 (* Two levels (the first two names in Init, the rest in Next) so that TLC's  *)
 (* workers share the computation of the expected sets.                       *)
 EXTENDS Glob, Json
 
 TopNames == << <<"a">>, <<"a", "b">>, <<".", "h">>, <<"b", "*">>, <<"a", "\\">> >>
-Shapes == {"absent", "file", "dir", "dir+a", "dir+.c", "link"}
+Shapes == {"absent", "file", "dir", "dir+a", "dir+.c", "link", "ldir+a"}     \* ldir+a: a symbolic link to a directory that holds a
 ShapesOf(i) == IF i = 5 THEN {"absent", "file", "dir+a"} ELSE Shapes
 Trees == {t \in [1..Len(TopNames) -> Shapes] : \A i \in 1..Len(TopNames) : t[i] \in ShapesOf(i)}
 Comps == << <<"a">>, <<"*">>, <<"?">>, <<"a", "*">>, <<".", "*">>, <<"[", "a", "b", "]", "*">>, <<"\\", "a">>, <<"a", "?">>,
@@ -17,10 +17,10 @@ Comps == << <<"a">>, <<"*">>, <<"?">>, <<"a", "*">>, <<".", "*">>, <<"[", "a", "
             <<"a", "\\">> >>      \* an escaped ordinary character / period followed by a wildcard; a trailing backslash (stands for itself)
 
 CONSTANT Sel               \* the indices of the trees to emit (the quick tier samples)
-ShapeSeq == <<"absent", "file", "dir", "dir+a", "dir+.c", "link">>
-ShapeIdx(sh) == CHOOSE i \in 1..6 : ShapeSeq[i] = sh
+ShapeSeq == <<"absent", "file", "dir", "dir+a", "dir+.c", "link", "ldir+a">>
+ShapeIdx(sh) == CHOOSE i \in 1..7 : ShapeSeq[i] = sh
 RECURSIVE IndexFrom(_, _)
-IndexFrom(t, i) == IF i > Len(TopNames) THEN 0 ELSE (ShapeIdx(t[i]) - 1) + 6 * IndexFrom(t, i + 1)
+IndexFrom(t, i) == IF i > Len(TopNames) THEN 0 ELSE (ShapeIdx(t[i]) - 1) + 7 * IndexFrom(t, i + 1)
 TreeIndex(t) == IndexFrom(t, 1)
 
 VARIABLES tree, done      \* [1..Len(TopNames) -> Shapes]; the tree is complete
@@ -33,6 +33,8 @@ FS == LET ents == UNION {
                  [] tree[i] = "link"   -> {<< <<TopNames[i]>>, "link" >>}
                  [] tree[i] = "dir"    -> {<< <<TopNames[i]>>, "dir" >>}
                  [] tree[i] = "dir+a"  -> {<< <<TopNames[i]>>, "dir" >>, << <<TopNames[i], <<"a">> >>, "file" >>}
+                 \* for the reference a link to a directory IS that directory (the driver creates the link; kind "ldir")
+                 [] tree[i] = "ldir+a" -> {<< <<TopNames[i]>>, "ldir" >>, << <<TopNames[i], <<"a">> >>, "lfile" >>}
                  [] OTHER              -> {<< <<TopNames[i]>>, "dir" >>, << <<TopNames[i], <<".", "c">> >>, "file" >>}
                : i \in 1..Len(TopNames)}
       IN  [p \in {e[1] : e \in ents} |-> (CHOOSE e \in ents : e[1] = p)[2]]
